@@ -512,6 +512,27 @@ func (e *OpEngine) RunSGDChecks(maxRank int) {
 							e.find("C17.replaced", key, "same-object", pos, "the tensor behind the pointer was modified in place instead of being replaced [instance "+label+"]")
 						}
 					}
+					if !ok || r > 1 {
+						return
+					}
+					// history: the same optimizer updates the same pointer again (a later training step: new weight
+					// values, new gradient); the step must again be w - lr·g of the CURRENT tensor only
+					w2 := e.mkTensor("W2", TensorArg{Dims: dims, Tracked: true, Dirty: true, Rng: spec.FiniteAny()})
+					g2 := e.mkTensor("G2", TensorArg{Dims: dims, Rng: spec.FiniteAny()})
+					wg2, _ := e.W.GctxOf(w2)
+					interp.Store(wg2.C.Fields[e.A.GGradient], e.W.Boxed(g2))
+					interp.Store(slot.C, e.W.Boxed(w2))
+					label2 := label + ", second update through the same optimizer and pointer"
+					out, ok = e.call(key, label2, upd, []interp.Value{opt, slot})
+					if !ok {
+						return
+					}
+					if isErrVal(out.Results[0]) {
+						e.find("A4.pre", key, "rejects-valid", pos, "Update fails on a tensor that has a gradient [instance "+label2+"]")
+						return
+					}
+					want2 := sym.Sub(sym.LeafE("W2", spec.IdentIdx(r)), sym.Mul(lc.lr, sym.LeafE("G2", spec.IdentIdx(r))))
+					e.checkTensorResult(key, label2, pos, []interp.Value{interp.Load(slot.C), interp.NilV{}}, Expect{Dims: dims, Elem: want2, HasElem: true, RuleElem: "w - lr·g of the current tensor (no memory of earlier updates)"})
 				})
 			}
 		}
@@ -575,9 +596,38 @@ func (e *OpEngine) RunAccuracyChecks() {
 		return
 	}
 	pos := e.P.FuncPos(acc)
-	counters := func(obj interp.PtrV) (total, correct sym.Poly) {
-		return e.fieldOf(obj, "total").(interp.IntV).P, e.fieldOf(obj, "correct").(interp.IntV).P
+	// the metric's state is observed without naming its fields: every scalar reachable by value from the object
+	var stateOf func(c *interp.Cell) string
+	stateOf = func(c *interp.Cell) string {
+		if c == nil {
+			return "nil"
+		}
+		if c.Fields != nil {
+			s := "{"
+			for _, f := range c.Fields {
+				s += stateOf(f) + ";"
+			}
+			return s + "}"
+		}
+		if c.Elems != nil {
+			s := "["
+			for _, f := range c.Elems {
+				s += stateOf(f) + ";"
+			}
+			return s + "]"
+		}
+		switch v := interp.Load(c).(type) {
+		case interp.IntV:
+			return v.P.String()
+		case interp.FloatV:
+			return v.E.Key()
+		case nil:
+			return "unset"
+		default:
+			return interp.Describe(v)
+		}
 	}
+	snapshot := func(obj interp.PtrV) string { return stateOf(obj.C) }
 	matched := func(pn, tn string, n sym.Poly) sym.Expr {
 		v := sym.FreshVar()
 		idx := []sym.Poly{sym.PAtom(v)}
@@ -620,32 +670,23 @@ func (e *OpEngine) RunAccuracyChecks() {
 				wantTotal = wantTotal.Add(n)
 				wantMatched = append(wantMatched, matched(pn, tn, n))
 				// an invalid call in between must leave the counts unchanged
-				t0, c0 := counters(obj)
+				s0 := snapshot(obj)
 				bad := e.mkTensor("Bad", TensorArg{Dims: []sym.Poly{n, n}})
 				out, ok = e.call(key, label, acc, []interp.Value{obj, e.W.Boxed(bad), e.W.Boxed(t)})
 				if !ok {
 					return
 				}
 				e.expectError(key, label, pos, out.Results, "rank-2 prediction")
-				t1, c1 := counters(obj)
 				e.did("S7.no-store-on-error", key)
-				if !t0.Equal(t1) || !c0.Equal(c1) {
+				if snapshot(obj) != s0 {
 					e.find("S7.no-store-on-error", key, "counts-changed-on-error", pos, "a rejected call changed the running counts [instance "+label+"]")
 				}
 			}
-			total, correct := counters(obj)
 			e.did("A2.formula", key)
-			if !total.Equal(wantTotal) {
-				e.find("A2.formula", key, "total", pos, fmt.Sprintf("positions seen = %s, expected %s [instance %s]", total.String(), wantTotal.String(), label))
-			}
-			// correct is a sum of truncations of the matched counts, one atom per batch
+			// matched is a sum of truncations of the per-batch matched counts, one atom per batch
 			wantC := sym.Expr{}
 			for _, me := range wantMatched {
 				wantC = sym.Add(wantC, me)
-			}
-			gotC := sym.PolyE(correct).SubstSym(e.internedAsExpr())
-			if gotC.Key() != wantC.Key() {
-				e.find("A2.formula", key, "correct", pos, fmt.Sprintf("matched count = %s, expected %s [instance %s]", clip(gotC.String()), clip(wantC.String()), label))
 			}
 			out, ok = e.call("metrics.(*Accuracy).Result", label, resf, []interp.Value{obj})
 			if !ok {
@@ -655,8 +696,13 @@ func (e *OpEngine) RunAccuracyChecks() {
 			if f, isF := out.Results[0].(interp.FloatV); isF {
 				want := sym.Div(wantC, sym.PolyE(wantTotal))
 				got := f.E.SubstSym(e.internedAsExpr())
-				if got.Key() != want.Key() {
-					e.find("A2.formula", "metrics.(*Accuracy).Result", "ratio", e.P.FuncPos(resf), fmt.Sprintf("Result = %s, expected matched/total = %s [instance %s]", clip(got.String()), clip(want.String()), label))
+				if !e.sameExpr(got, want, nil) {
+					if verdict, wit := e.numericCompare(got, want, nil); verdict == 1 {
+						e.Findings = append(e.Findings, Finding{Method: e.curMethod, Rule: "A2.formula", Construct: "metrics.(*Accuracy).Result", What: "ratio", Pos: e.P.FuncPos(resf),
+							Detail: fmt.Sprintf("Result = %s, expected matched/total = %s [instance %s]", clip(got.String()), clip(want.String()), label), Witness: wit})
+					} else {
+						e.undecided("A2.formula", "metrics.(*Accuracy).Result", "ratio", e.P.FuncPos(resf), fmt.Sprintf("normal forms differ, no separating point: Result = %s, expected %s [instance %s]", clip(got.String()), clip(want.String()), label))
+					}
 				}
 			}
 		})
@@ -684,6 +730,7 @@ func (e *OpEngine) RunAccuracyChecks() {
 				return
 			}
 			obj := out.Results[0].(interp.PtrV)
+			fresh := snapshot(obj)
 			p, t := bad.build()
 			out, ok = e.call(key, label, acc, []interp.Value{obj, p, t})
 			if !ok {
@@ -693,9 +740,8 @@ func (e *OpEngine) RunAccuracyChecks() {
 				return
 			}
 			e.expectError(key, label, pos, out.Results, bad.label)
-			total, correct := counters(obj)
 			e.did("S7.no-store-on-error", key)
-			if !total.IsZero() || !correct.IsZero() {
+			if snapshot(obj) != fresh {
 				e.find("S7.no-store-on-error", key, "counts-changed-on-error", pos, "a rejected call changed the running counts [instance "+label+"]")
 			}
 		})
